@@ -24,6 +24,7 @@ func init() {
 	stdSpecs["encoding/binary.Write"] = specBinaryWrite
 	stdSpecs["encoding/binary.Read"] = specBinaryRead
 	stdSpecs["io.ReadFull"] = specReadFull
+	stdSpecs["sort.Strings"] = specSortStrings
 	stdWrites["encoding/binary.Write"] = []string{"G_written", "G_lastSlice", "G_lastInt"}
 	stdWrites["encoding/binary.Read"] = []string{"G_consumed", "G_lastSlice", "G_lastInt"}
 	stdWrites["io.ReadFull"] = []string{"G_consumed"}
@@ -290,4 +291,27 @@ func ioInvokeWrites(c *ssa.CallCommon, vc *VC) (map[string]bool, bool) {
 		return map[string]bool{"G_consumed": true, vc.heapArr("Int"): true}, true
 	}
 	return nil, false
+}
+
+// sort.Strings(x): x becomes a rearrangement of its former contents (skolemised permutation), sorted.
+func specSortStrings(fr *frame, c *ssa.CallCommon, args []T, st *state, pos string) []T {
+	vc := fr.vc
+	vc.assumedStd["sort.Strings(x): afterwards x holds a permutation of its former elements"] = true
+	x := vc.nameConst("sort_x", "Slice", args[0].S)
+	h := vc.heapArr("Int")
+	oldH := vc.heapGet(st, h)
+	fr.havocTarget(T{x, "Slice", c.Args[0].Type()}, st, pos)
+	newH := vc.heapGet(st, h)
+	vc.ctr++
+	perm := fmt.Sprintf("sort_perm!%d", vc.ctr)
+	inv := fmt.Sprintf("sort_inv!%d", vc.ctr)
+	vc.emit(fmt.Sprintf("(declare-fun %s (Int) Int)", perm))
+	vc.emit(fmt.Sprintf("(declare-fun %s (Int) Int)", inv))
+	an := vc.at("Int", newH, x, "j")
+	ao := vc.at("Int", oldH, x, "j")
+	vc.assume(st.reach, fmt.Sprintf("(forall ((j Int)) (! (=> (and (<= 0 j) (< j (s_len %s))) (and (<= 0 (%s j)) (< (%s j) (s_len %s)) (= %s %s))) :pattern (%s)))",
+		x, perm, perm, x, an, vc.at("Int", oldH, x, fmt.Sprintf("(%s j)", perm)), an))
+	vc.assume(st.reach, fmt.Sprintf("(forall ((j Int)) (! (=> (and (<= 0 j) (< j (s_len %s))) (and (<= 0 (%s j)) (< (%s j) (s_len %s)) (= %s %s))) :pattern (%s)))",
+		x, inv, inv, x, ao, vc.at("Int", newH, x, fmt.Sprintf("(%s j)", inv)), ao))
+	return []T{}
 }
